@@ -440,3 +440,48 @@ Definition cell_value (c : bcell) : option sval :=
   | BPlain _ v => Some v
   | BAdaptive _ content _ => Some (VB content)
   end.
+
+(* ------------------------------------------------------------------ *)
+(* 7. TupleBuilder histories (tuple_builder.go: Put*, Build,            *)
+(*    BuildPermissive, BuildPrefix, BuildPrefixNoRecycle, Recycle).     *)
+Inductive bop :=
+| OPut (i : nat) (c : bcell)              (* any PutXxx on column i *)
+| OBuild                                  (* Build / BuildPermissive: normalise, NewTuple(fields[:n]), Recycle *)
+| OBuildPrefix (k : nat)                  (* NewTuple(fields[:k]), Recycle *)
+| OBuildPrefixNoRecycle (k : nat)         (* NewTuple(fields[:k]) *)
+| ORecycle.
+
+Fixpoint set_slot (i : nat) (c : bcell) (s : list bcell) : list bcell :=
+  match s, i with
+  | [], _ => []
+  | _ :: r, O => c :: r
+  | x :: r, S i' => x :: set_slot i' c r
+  end.
+
+(* tb.fields (one slot per column, BNull = nil) and tb.inlineSize *)
+Record bstate := { bs_slots : list bcell; bs_total : N }.
+
+(* NewTupleBuilder / Recycle: every slot nil, counters 0 *)
+Definition bs_init (n : nat) : bstate := {| bs_slots := repeat BNull n; bs_total := 0 |}.
+
+(* BuildPermissive with the running size counter (every Put adds to it) *)
+Definition build_fields_total (target total : N) (cs : list bcell) : list field :=
+  if target <? total then
+    normalise 0 (pick_outline (Z.of_N total) (Z.of_N target) (sort_desc (candidates 0 cs))) cs
+  else map (held target) cs.
+
+Definition bs_step (target : N) (n : nat) (st : bstate) (op : bop) : bstate * list bytes :=
+  match op with
+  | OPut i c => ({| bs_slots := set_slot i c (bs_slots st); bs_total := bs_total st + inline_contrib c |}, [])
+  | OBuild => (bs_init n, [new_tuple (build_fields_total target (bs_total st) (bs_slots st))])
+  | OBuildPrefix k => (bs_init n, [new_tuple (firstn k (map (held target) (bs_slots st)))])
+  | OBuildPrefixNoRecycle k => (st, [new_tuple (firstn k (map (held target) (bs_slots st)))])
+  | ORecycle => (bs_init n, [])
+  end.
+
+(* the tuples a builder produces along a history *)
+Fixpoint bs_run (target : N) (n : nat) (st : bstate) (ops : list bop) : list bytes :=
+  match ops with
+  | [] => []
+  | op :: r => let '(st', out) := bs_step target n st op in out ++ bs_run target n st' r
+  end.
